@@ -27,6 +27,18 @@ CHECKS = {
             "exhaustive small-domain enumeration + Hypothesis, round-trip (replay) oracle"),
     "C08": ("the same generated input run in all four output modes; files compared between modes, joined records checked against their parts from file text, maxDifference boundary probed adaptively",
             "property-based testing (Hypothesis): differential between output modes + structural relation joined/parts"),
+    "C11": ("lattice inputs commensurate with both correlation resolutions run as given and with every query mirrored ('separate' mode); records compared under the mirror map when seeds correspond and the best candidate is unique; chainer/join score compared between ascending and descending query label numbers",
+            "property-based testing (Hypothesis): metamorphic relation (mirror image)"),
+    "C15": ("segment lists produced from real label data by ladders of 2-8 seed peaks resolved as a list and pairwise; identity-level comparison of input and output positions, shared-label / crossing / removed-only-in-overlap clauses",
+            "property-based testing (Hypothesis): invariant over input/output of the resolver"),
+    "C17": ("generated CMAP text (shuffled rows, permuted/extra columns, label-less molecules, id filters) read with readQueries/readReferences and compared with the harness model; trim laws on every map",
+            "property-based testing (Hypothesis): reference model of the file text"),
+    "C18": ("every file of generated end-to-end runs and unit-level writer output read back with the project's reader and compared with the independently parsed text and the harness maps",
+            "property-based testing (Hypothesis): round-trip writer -> reader"),
+    "C19": ("generated pairs of alignment sets with colliding keys, duplicated query labels and derived second sets; key partition, bounds, reflexivity and swap symmetry of AlignmentComparer.compare",
+            "property-based testing (Hypothesis): algebraic laws"),
+    "C20": ("generated sorted call lists around the blur distance within and across chromosomes through cluster_indels and write_indel_file (parsed back); generated maps/alignments/breakpoints through both indel finders with Length/type recomputed from harness maps",
+            "property-based testing (Hypothesis): conservation laws + recomputation"),
     "C12": ("exhaustive small label lattices (all multisets, seed offsets, strands, shifts) and Hypothesis cases with planted boundary labels against an independent model of window, partition, order, offsets and mutual-nearest pairing",
             "exhaustive small-domain enumeration + Hypothesis, reference model"),
     "C13": ("exhaustive enumeration of all score sequences up to length 6 (quick) / 8 (thorough) over {-3..3} x 20 threshold pairs plus Hypothesis-generated long realistic sequences, each compared with a reference scan written from the statement and with the statement's validity clauses",
